@@ -240,6 +240,7 @@ func (p *injectingPool) Lock() {
 
 // armInjection: with some probability the next commit is accompanied by a valid submission at its pool-lock point.
 func (w *world) armInjection() {
+	w.injSender = -1
 	if w.inj == nil || !w.r.Chance(0.35) {
 		return
 	}
@@ -262,6 +263,7 @@ func (w *world) armInjection() {
 		w.c.Count("submissions", 1)
 		if res == nil {
 			w.c.Count("submissions_injected_at_commit_lock_point_admitted", 1)
+			w.injSender = t.Sender
 		}
 	}
 }
@@ -280,7 +282,7 @@ func (w *world) opCommitSelf() {
 	w.taint, w.taintInfo = map[common.Address]string{}, map[common.Address]string{}
 	after := fmt.Sprintf("commit of own block %d (%d txs, drop0=%v)", blk.Height, blk.NumTxs, drop)
 	w.log(opRec{Op: "commit", Class: "self", Res: fmt.Sprintf("h=%d txs=%d", blk.Height, blk.NumTxs), Note: fmt.Sprintf("drop0=%v", drop)})
-	w.afterOp(opCtx{kind: "commit", sender: -1, drop0: drop}, after)
+	w.afterOp(opCtx{kind: "commit", sender: -1, drop0: drop, injSender: w.injSender}, after)
 	if !w.stop {
 		w.probe("after " + after)
 	}
@@ -304,7 +306,7 @@ func (w *world) opCommitForeign() {
 	w.taint, w.taintInfo = map[common.Address]string{}, map[common.Address]string{}
 	after := fmt.Sprintf("commit of foreign block %d (%d txs, drop0=%v)", blk.Height, blk.NumTxs, drop)
 	w.log(opRec{Op: "commit", Class: "foreign", Res: fmt.Sprintf("h=%d txs=%d", blk.Height, blk.NumTxs), Note: fmt.Sprintf("drop0=%v", drop)})
-	w.afterOp(opCtx{kind: "commit", sender: -1, drop0: drop}, after)
+	w.afterOp(opCtx{kind: "commit", sender: -1, drop0: drop, injSender: w.injSender}, after)
 	if !w.stop {
 		w.probe("after " + after)
 	}
